@@ -653,7 +653,9 @@ func fullScalars() []*ref.JDoc {
 	for _, v := range []float64{0, math.Copysign(0, -1), -0.5, 1, 3.14159, 1e300, -1e-300, 5e-324, math.MaxFloat64, 123456789012345678} {
 		a = append(a, ref.JF(v))
 	}
-	for _, s := range []string{"", "a", "null", "12", "a,b)(c", "é€\U0001F600 x", "ctl\x01\x0b\x7f", "pua:\U000F0004 unassigned:\U0003FFFD", rep("s", 127), rep("s", 128), rep("s", 16383), rep("s", 16384)} {
+	for _, s := range []string{"", "a", "null", "12", "a,b)(c", "é€\U0001F600 x", "ctl\x01\x0b\x7f", "pua:\U000F0004 unassigned:\U0003FFFD",
+		// metacharacters of formatters and templates: the text is data
+		"100%", "%d %s %v%", "%%", "%!(EXTRA)", "{0} $1 ${x} \\1", rep("s", 127), rep("s", 128), rep("s", 16383), rep("s", 16384)} {
 		a = append(a, ref.JS(s))
 	}
 	a = append(a,
